@@ -4,7 +4,7 @@ import re
 from collections import defaultdict
 from lib.facts import CallGraph, find, is_node, path_of
 from lib.mirq import Slice, calls_matching, edge_dominates, switch_on_call_result, PASS_THROUGH
-from lib.mirinline import inline_body, result_flow_exits as result_exits, switches_on_bool_result, switches_on_option_result, feasible_reach, option_none_becomes_err
+from lib.mirinline import inline_body, result_flow_exits as result_exits, switches_on_bool_result, switches_on_option_result, feasible_reach, option_none_becomes_err, switches_on_option_result_through_adaptors
 
 TECHNIQUE = ("who-may-call over the MIR call graph with the evaluator re-entry points cut; provenance of the assignment sink back to the "
              "mutable-variables map through summarised lookup helpers; CFG rules (redefinition test dominates insertion, no Err exit reachable after an "
@@ -22,6 +22,19 @@ EXPLANATION = (
     "follow a tested value through named locals / negations / dropped temporaries to the switch that tests it, classify Ok/Err exits by value flow, and prune paths that contradict "
     "a Result/Option variant built on the path (`helper(..)?` after `return Err(..)` inside the helper); R6 is a call-graph rule over the closures handed to catch_unwind."
     ' (R9) a failing indexed assignment changes nothing: every assignment kernel converts its 1-based index with the overflow-checked `ix - 1` (index 0 is rejected), never with a saturating / wrapping / clamped form.'
+    " (R10) every define statement that binds several targets (enumerated from the arms of statement(): node type with a Vec<Identifier> field) is all-or-nothing over a finite table "
+    "computed by evaluating the MIR of the dispatcher arm, the evaluator and every mech helper / closure it enters (lib/mirexec.py) over a model built by type - 1..4 targets x tuples of "
+    "0..4 elements x right-hand side given directly / through a variable / not a tuple x no target or one target already bound (immutable / mutable): the evaluator returns Err and "
+    "leaves the model symbol table unchanged exactly when a target is bound, there are more targets than elements or the source is not a tuple, and otherwise returns Ok with target j "
+    "bound to element j and nothing else changed; what is decided is this table of the compiled control flow over the model, not the behaviour of a running interpreter "
+    "(rows the model cannot evaluate are recorded as undecided)."
+    " (R11) the same evaluation for the statements with one target name (node type reaches exactly one Identifier; enumerated from the arms of statement()): a define of a name that is "
+    "already bound (immutably / mutably) and an assignment / op-assignment to an undefined or immutable name return Err and leave the model symbol table and the content of the "
+    "existing cell unchanged, for every value of the statement's bool flags; a define of a free name returns Ok with exactly that name bound, mutable iff the statement says so "
+    "(function compilers are assumed to succeed). Decided is the compiled control flow over the model, not a running interpreter."
+    " (R2, R3 generalised) R2 also recognises a lookup written directly on a map field of the symbol table (`table.mutable_variables.get(&id)`: the field must be the mutable map) and "
+    "follows the looked-up Option through None-preserving adaptors (`.map(..)`, `.cloned()`, `.as_ref()`) to the switch that tests it; R3 accepts a validation phase it cannot follow "
+    "on the CFG (a closure handed to try_for_each / all / any) when the R10 table decides the redefinition clause for that evaluator."
 )
 
 INTERP = "mech_interpreter.lib"
@@ -138,6 +151,16 @@ def run(F, rep, tier):
         return insert_fn in reach, reach
 
     evaluators = {f for f in cg.bodies if f.startswith("mech_interpreter::") and f.split("::")[-1] in set(arms.values()) | {"statement"}}
+    # R10 first: its table also decides the redefinition clause (R3) for the evaluators it covers, whatever the spelling of their validation phase
+    from rules import c05_table
+    _table.clear()
+    binders = set()
+    for v_, fn_ in arms.items():
+        if v_ in DEFINE:
+            c_ = sorted((f for f in cg.bodies if f.startswith("mech_interpreter::") and f.endswith("::" + fn_)), key=len)
+            if c_ and insert_fn and reaches_insert(c_[0])[0]:
+                binders.add(v_)           # the define-family statements that bind VARIABLES (kind / enum definitions never reach the symbol table)
+    _table.update(c05_table.run(F, rep, cg, arms, binders, REENTRY, [CORE, INTERP], assign=ASSIGN))
     for v, fn in sorted(arms.items()):
         full = "mech_interpreter::statements::%s" % fn
         if full not in cg.bodies:
@@ -214,6 +237,7 @@ def run(F, rep, tier):
 
 
 shallow_sites = defaultdict(list)
+_table = {}
 
 
 DATA_PASS_THROUGH = re.compile(PASS_THROUGH.pattern.replace(r"::from_residual$|", ""))
@@ -258,19 +282,29 @@ def check_evaluator(F, rep, cg, variant, full, is_assign, mut_i, sym_i, insert_f
     if is_assign:
         # R2: every symbol-cell lookup used by this evaluator is a mutable lookup
         lookups = []
+        direct = {}
         for i, t in b.calls():
             cal = t.get("f") or t["tf"]
             if re.search(r"(symbol_table::SymbolTable|program::ProgramState)::(get\w*)$", cal) and re.search(r"Option<.*Ref<.*Value", b.locals[t["d"][0]]):
                 lookups.append((i, t, cal))
+            elif re.search(r"hash::map::HashMap::<K, V, S(, A)?>::get(_mut)?$", cal) and re.search(r"Option<.*Ref<.*Value", b.locals[t["d"][0]]) and t["args"]:
+                # the accessor inlined by hand: `table.mutable_variables.get(&id)` - a lookup in a map that is a FIELD of the symbol table
+                fld = symbol_table_field(b, sl, t["args"][0])
+                if fld is not None:
+                    direct[i] = fld
+                    lookups.append((i, t, cal))
         rep.floor("C05-R2", "symbol-cell lookups in %s" % full.split("::")[-1], len(lookups), 1)
         for i, t, cal in lookups:
-            ok, why = mutable_only(cg, cal, mut_i, set())
+            if i in direct:
+                ok, why = direct[i] == mut_i, "reads field %s of the symbol table, which is not the mutable-variables map" % direct[i]
+            else:
+                ok, why = mutable_only(cg, cal, mut_i, set())
             rep.check(ok, "C05-R2", "%s:lookup:%s" % (full.split("::")[-1], cal.split("::")[-1]),
                       "%s takes the cell it assigns to from %s, which %s: an immutable variable can be modified" % (full, cal, why), "%s:%d" % (b.file, t["l"]),
                       sample={"evaluator": full, "lookup": cal, "line": t["l"]})
             # None branch must lead to Err exits only (NotMutable / UndefinedVariable)
             ok_exits, err_exits = result_exits(b)
-            tests = switches_on_option_result(b, i, t)
+            tests = switches_on_option_result_through_adaptors(b, i, t)
             nkey = "%s:none-branch-errs:%s" % (full.split("::")[-1], cal.split("::")[-1])
             for swb, some_t, none_t in tests[:1]:
                 r = feasible_reach(b, [none_t])
@@ -298,6 +332,14 @@ def check_evaluator(F, rep, cg, variant, full, is_assign, mut_i, sym_i, insert_f
     if variant in ("KindDefine", "EnumDefine"):
         return
     rep.floor("C05-R3", "symbol insertion sites in %s" % full.split("::")[-1], len(sites), 1)
+    # who-may-insert sites INSIDE LOOPS: an evaluator that binds several names must be driven by the all-or-nothing table (C05-R10), which enumerates
+    # its evaluators by node type; one that binds in a loop without naming its targets in a Vec<Identifier> is recorded, not silently skipped
+    in_loop = [i for i, t, cal in sites if any(i in body for body in _loops(b).values())]
+    if in_loop and full not in _table:
+        rep.note("undecided", "%s inserts symbols inside a loop (%d site(s)) but its node type names no Vec<Identifier>: the all-or-nothing table (C05-R10) cannot drive it; "
+                              "what its validation phase tests was not decided" % (full, len(in_loop)))
+    elif in_loop:
+        rep.note("followed", "%s inserts symbols inside a loop (%d site(s)): covered by the all-or-nothing table (C05-R10)" % (full, len(in_loop)))
     ok_exits, err_exits = result_exits(b)
     contains = [(i, t) for i, t in b.calls() if re.search(r"(SymbolTable|ProgramState)::contains(_symbol)?$", t.get("f") or t["tf"])]
     # "the name is already bound" tests: (block, call, branches) with branches = [(switch block, target when bound, target when free)]
@@ -326,6 +368,11 @@ def check_evaluator(F, rep, cg, variant, full, is_assign, mut_i, sym_i, insert_f
                     good = True
                 elif errs_only and two_pass(b, ci, i):
                     good = True          # validate-all-then-insert-all over the same sequence
+        if not good and _table.get(full, {}).get("target-already-bound") == "ok":
+            # the validation phase is written in a form the CFG rule does not follow (a closure handed to try_for_each / all / any ...): the clause is
+            # decided by the finite table of C05-R10 - for every number of targets and every already-bound target the evaluator returns Err and binds nothing
+            good = True
+            rep.note("followed", "%s: redefinition test before the insertion at line %d decided by the all-or-nothing table (C05-R10), not by dominance" % (full, t["l"]))
         if variant == "FsmDeclare":
             if not good:
                 rep.note("unconfirmed", "%s inserts a symbol (line %d) with no dominating redefinition test (no failing input established; not reported)" % (full, t["l"]))
@@ -389,6 +436,27 @@ def check_evaluator(F, rep, cg, variant, full, is_assign, mut_i, sym_i, insert_f
                 shallow_sites[h].append(("%s:%d" % (full.split("::")[-1], t["l"]), full.split("::")[-1], ",".join(sorted(sigs))[:80]))
             if not shallow:
                 rep.ok("C05-R5", "%s:inserted-value-detached" % full.split("::")[-1], sample={"roots": sorted(map(str, calls))[:6]})
+
+
+def symbol_table_field(b, sl, operand):
+    """index of the SymbolTable field that `operand` (a reference to a map) is a projection of, through named locals and reborrows; None when it is not one"""
+    seen = set()
+    st = [operand[0]] if isinstance(operand, list) else []
+    while st:
+        l = st.pop()
+        if l in seen:
+            continue
+        seen.add(l)
+        for _, s_ in sl.defs.get(l, []):
+            if s_.get("rk") not in ("ref", "use", "rawptr") or not s_.get("src") or not isinstance(s_["src"][0], list):
+                continue
+            base, proj = s_["src"][0][0], s_["src"][0][1]
+            m = re.match(r"^\*?\.(\d+)$", proj or "")
+            if m and re.search(r"symbol_table::SymbolTable$", b.locals[base].replace("&mut ", "").lstrip("&").strip()):
+                return int(m.group(1))
+            if proj in ("", "*"):
+                st.append(base)
+    return None
 
 
 def cell_content_clones(b, sl, operand):
